@@ -39,9 +39,12 @@ func init() {
 			"non-trivial = the oracle had something to decide: distinct (operator class, roots, time class, entry point, outcome class) cells where outcome is accept-authentic, reject-nonauthentic or reject-authentic. " +
 			"Two further families follow the sequences (audit.go), judged by the same rule: 'kept' = sequences in which the caller keeps ONE options value per entry point, one decode receiver, one buffer, one attestation and long-lived validator closures and changes one thing at a time between calls; " +
 			"'matrix' = every entry point under drawn option combinations (SNP sub-options, expected digest, base policy x overwrite, VMSA/RAM selectors, testonly_force_gcs, endorsement from options / certificate table / bucket / bucket after an unparseable table entry, failing bucket, cancelled contexts, " +
-			"verification times in non-UTC zones, CLI roots from file / download / failing or garbage download / missing or empty file, attestation containers raw/hex/base64/proto, parent-command flags); cells there are (family, entry point, option values, operator|roots|time, outcome)",
+			"verification times in non-UTC zones, CLI roots from file / download / failing or garbage download / missing or empty file, attestation containers raw/hex/base64/proto, parent-command flags); cells there are (family, entry point, option values, operator|roots|time, outcome). " +
+			"Two more (round4.go), same rule: 'multi' = one command-line run given several things (verify with 2-4 endorsement PATHs, authentic and not in every order, the same PATH twice, the root flag at any position; sev/tdx validate with further positional arguments), each PATH also alone as reference; " +
+			"'live' = the verification time left unset (= the time of the call): per case a signer certificate that runs out and one that starts at a whole second a few seconds ahead, validators and option values made (and partly used) before it and used again after it; a call is judged only if it lay wholly >= 1 s on one side of that second",
 		Assumptions: []string{"oracle is one-directional (accept => authentic) and is the weakest reading of C01: any PSS salt length, root expiry not required, no CA/key-usage constraints",
-			"zero verification time is excluded (crypto/x509 substitutes the wall clock)", "TdxValidate is always given the endorsement in its options (nil would start real HTTPS retries)",
+			"a zero verification time means the time of the call (crypto/x509 substitutes the wall clock); it is used only in the 'live' family, the only place where real time passes and where the wall clock is read: verdicts there are taken only with a margin of one whole second on the call's side of the certificate boundary and with wall and monotonic clock in agreement, other calls are counted as not judged",
+			"a successful run of `verify PATH PATH...` has accepted every endorsement it names (the PATHs are what is to be verified, not alternative sources of one endorsement)", "TdxValidate is always given the endorsement in its options (nil would start real HTTPS retries)",
 			"RSA keys are generated per run (Go's RSA keygen is not seedable); verdicts do not depend on key values"},
 		ShardsQuick: 8, ShardsThor: 16, TimeoutS: 600, TimeoutThor: 3000, Run: run,
 	})
@@ -672,7 +675,10 @@ func run(c *core.Ctx) {
 	}
 	// audit families (audit.go): caller-kept values reused across calls, and option / source / environment
 	// combinations; their case numbers follow the sequences so that every earlier case keeps its number.
-	w.runAudit(c, base+len(seqs))
+	next := w.runAudit(c, base+len(seqs))
+	// fourth-round families (round4.go): several endorsements named in one command-line run, and an unset
+	// verification time ("the time of the call") with values kept across a certificate's validity boundary.
+	w.runRound4(c, next)
 	for _, en := range ents {
 		c.Count("genuine-accepts/"+en.name, genuineAccept[en.name])
 		c.Count("nonauthentic-rejects/"+en.name, forgedReject[en.name])
